@@ -70,7 +70,7 @@ def c05_extra(run, tier, bins):
 
 PROPS = {
     "C01": {
-        "uses_gen": ["constants", "config", "headers", "writer", "verify", "coding", "source", "decode", "lpc", "rice", "driver"],
+        "uses_gen": ["constants", "config", "headers", "writer", "verify", "coding", "source", "decode", "lpc", "rice", "driver", "sink", "utf8"],
         "theorem_modules": ["FlacVerif.Theorems.C01", "FlacVerif.Theorems.C01Strict", "FlacVerif.Theorems.C01Wrap", "FlacVerif.Theorems.C09Gen", "FlacVerif.Theorems.C01Gen", "FlacVerif.Theorems.C13Gen", "FlacVerif.Theorems.C03GenMem"],
         "streams": {"quick": [("stream", ["--cases", 400, "--max-samples", 6000]), ("kernel", ["--cases", 150]), ("stream", ["--cases", 24, "--max-samples", 9000, "--focus", "burst"])],
                     "thorough": [("stream", ["--cases", 2000, "--max-samples", 24000]), ("kernel", ["--cases", 3000]), ("stream", ["--cases", 333, "--max-samples", 24000, "--focus", "burst"])],
@@ -88,7 +88,7 @@ PROPS = {
         "trusted_base": STREAM_TRUSTED, "assumptions": [],
     },
     "C03": {
-        "uses_gen": ["constants", "config", "headers", "writer", "verify", "source", "coding", "driver"],
+        "uses_gen": ["constants", "config", "headers", "writer", "verify", "source", "coding", "driver", "sink", "utf8"],
         "theorem_modules": ["FlacVerif.Theorems.C03", "FlacVerif.Theorems.C01Strict", "FlacVerif.Theorems.C14Gen", "FlacVerif.Theorems.C03Gen", "FlacVerif.Theorems.C03GenMem"],
         "streams": {"quick": [("stream", ["--cases", 400, "--max-samples", 6000])],
                     "thorough": [("stream", ["--cases", 2000, "--max-samples", 24000])],
@@ -97,7 +97,7 @@ PROPS = {
         "trusted_base": STREAM_TRUSTED, "assumptions": ["MD5 compression function trusted (executable, cross-checked)"],
     },
     "C04": {
-        "uses_gen": ["constants", "config", "headers", "writer", "verify", "source", "coding", "driver"],
+        "uses_gen": ["constants", "config", "headers", "writer", "verify", "source", "coding", "driver", "sink", "utf8"],
         "theorem_modules": ["FlacVerif.Theorems.C04", "FlacVerif.Theorems.C01Strict", "FlacVerif.Theorems.C03Gen", "FlacVerif.Theorems.C03GenMem"],
         "streams": {"quick": [("stream", ["--cases", 300, "--max-samples", 6000]), ("stream", ["--cases", 300, "--max-samples", 1200, "--focus", "residues"]), ("stream", ["--cases", 5, "--max-samples", 36000, "--focus", "manyframes"])],
                     "thorough": [("stream", ["--cases", 1333, "--max-samples", 24000]), ("stream", ["--cases", 3000, "--max-samples", 2000, "--focus", "residues"]), ("stream", ["--cases", 100, "--max-samples", 24000, "--focus", "manyframes"])],
@@ -108,7 +108,7 @@ PROPS = {
     },
     "C09": {
         "uses_gen": ["constants", "config", "headers", "writer", "verify", "coding", "source", "decode", "lpc", "rice", "callees"],
-        "theorem_modules": ["FlacVerif.Theorems.C09", "FlacVerif.Theorems.C09Stream", "FlacVerif.Theorems.C09Gen", "FlacVerif.Theorems.C01Gen", "FlacVerif.Theorems.C13Gen", "FlacVerif.Theorems.C09Gen2"],
+        "theorem_modules": ["FlacVerif.Theorems.C09", "FlacVerif.Theorems.C09Stream", "FlacVerif.Theorems.C09Gen", "FlacVerif.Theorems.C01Gen", "FlacVerif.Theorems.C13Gen", "FlacVerif.Theorems.C09Gen2", "FlacVerif.Theorems.C13GenProp"],
         "streams": {"quick": [("stream", ["--cases", 250, "--max-samples", 6000]), ("stream", ["--cases", 150, "--max-samples", 9000, "--focus", "loud"]), ("stream", ["--cases", 52, "--max-samples", 9000, "--focus", "threshold"])],
                     "thorough": [("stream", ["--cases", 1333, "--max-samples", 24000]), ("stream", ["--cases", 1000, "--max-samples", 24000, "--focus", "loud"]), ("stream", ["--cases", 173, "--max-samples", 24000, "--focus", "threshold"])],
                     "search": [("stream", ["--cases", 1500, "--max-samples", 9000, "--focus", "loud"])]},
@@ -148,7 +148,7 @@ KERNEL_RULE = ("kernel stream: integer kernels called through the cfg(flacenc_ve
 
 PROPS.update({
     "C08": {
-        "theorem_modules": ["FlacVerif.Theorems.C08", "FlacVerif.Theorems.C12", "FlacVerif.Theorems.C08Gen", "FlacVerif.Theorems.C08Gen3", "FlacVerif.Lemmas.GenCount"], "uses_gen": ["headers", "writer", "sink", "utf8"],
+        "theorem_modules": ["FlacVerif.Theorems.C08", "FlacVerif.Theorems.C12", "FlacVerif.Theorems.C08Gen", "FlacVerif.Theorems.C08Gen3", "FlacVerif.Theorems.C08Gen4", "FlacVerif.Lemmas.GenCount"], "uses_gen": ["headers", "writer", "sink", "utf8"],
         "streams": {"quick": [("comp", ["--cases", 120]), ("kernel", ["--cases", 30]), ("stream", ["--cases", 120, "--max-samples", 4000]), ("stream", ["--cases", 3, "--max-samples", 36000, "--focus", "manyframes"]), ("stream", ["--cases", 40, "--max-samples", 9000, "--focus", "loud"])],
                     "thorough": [("comp", ["--cases", 3000]), ("kernel", ["--cases", 200]), ("stream", ["--cases", 1000, "--max-samples", 24000])],
                     "search": [("comp", ["--cases", 1500]), ("stream", ["--cases", 800, "--max-samples", 9000])]},
@@ -168,7 +168,7 @@ PROPS.update({
         "assumptions": ["the user sink implements the four required trait methods (provided methods expand as Model/Sink.lean `Op.expand`, proved bit-equivalent in C11_defaults)"],
     },
     "C13": {
-        "theorem_modules": ["FlacVerif.Theorems.C13", "FlacVerif.Theorems.C13Enc", "FlacVerif.Theorems.C09Gen", "FlacVerif.Theorems.C13Gen"], "uses_gen": ["constants", "config", "headers", "writer", "verify", "coding", "source", "decode", "rice"],
+        "theorem_modules": ["FlacVerif.Theorems.C13", "FlacVerif.Theorems.C13Enc", "FlacVerif.Theorems.C09Gen", "FlacVerif.Theorems.C13Gen", "FlacVerif.Theorems.C13GenProp"], "uses_gen": ["constants", "config", "headers", "writer", "verify", "coding", "source", "decode", "rice"],
         "streams": {"quick": [("kernel", ["--cases", 400]), ("stream", ["--cases", 150, "--max-samples", 6000])],
                     "thorough": [("kernel", ["--cases", 6000]), ("stream", ["--cases", 1000, "--max-samples", 24000]), ("stream", ["--cases", 666, "--max-samples", 24000, "--focus", "loud"])],
                     "search": [("kernel", ["--cases", 3000])]},
@@ -231,7 +231,7 @@ API_RULE = ("api stream: every public entry point (StreamInfo::new / Stream::new
 
 PROPS.update({
     "C17": {
-        "uses_gen": ["constants", "source", "config", "headers", "writer", "verify", "coding", "driver"],
+        "uses_gen": ["constants", "source", "config", "headers", "writer", "verify", "coding", "driver", "sink", "utf8"],
         "theorem_modules": ["FlacVerif.Theorems.C17", "FlacVerif.Theorems.C14Gen", "FlacVerif.Theorems.C09Gen", "FlacVerif.Theorems.C03GenErr"],
         "streams": {"quick": [("api", [])], "thorough": [("api", ["--thorough"])], "search": [("api", ["--thorough"])]},
         "profiles": {"quick": ["release", "dev"], "thorough": ["release", "dev"]},
@@ -394,7 +394,7 @@ def c10_extra(run, tier, bins):
 
 PROPS.update({
     "C16": {
-        "theorem_modules": ["FlacVerif.Theorems.C16crc", "FlacVerif.Theorems.C16", "FlacVerif.Theorems.C02Gen", "FlacVerif.Theorems.C02Hdr", "FlacVerif.Theorems.C15Gen", "FlacVerif.Theorems.C16Gen"], "uses_gen": ["constants", "tables", "headers", "writer", "verify", "decode", "parser"],
+        "theorem_modules": ["FlacVerif.Theorems.C16crc", "FlacVerif.Theorems.C16", "FlacVerif.Theorems.C02Gen", "FlacVerif.Theorems.C02Hdr", "FlacVerif.Theorems.C15Gen", "FlacVerif.Theorems.C16Gen", "FlacVerif.Theorems.C16GenRel"], "uses_gen": ["constants", "tables", "headers", "writer", "verify", "decode", "parser"],
         "streams": {"quick": [("parser", ["--cases", 14, "--burst-stride", 40, "--random", 1500])],
                     "thorough": [("parser", ["--cases", 24, "--burst-stride", 4, "--random", 30000])],
                     "search": [("parser", ["--cases", 30, "--burst-stride", 4, "--random", 20000])]},
@@ -416,8 +416,8 @@ CONFIG_RULE = ("config stream: corpus (F2: partitions 0 / 1000, max_order 7; F13
 
 PROPS.update({
     "C07": {
-        "driver": "fvconfig", "uses_gen": ["constants", "config", "headers", "writer", "verify", "coding", "source", "decode", "lpc", "rice", "driver"], "extra": c07_extra,
-        "theorem_modules": ["FlacVerif.Theorems.C07", "FlacVerif.Theorems.C07Total", "FlacVerif.Theorems.C09Gen", "FlacVerif.Theorems.C01Gen", "FlacVerif.Theorems.C13Gen", "FlacVerif.Theorems.C03GenErr"],
+        "driver": "fvconfig", "uses_gen": ["constants", "config", "headers", "writer", "verify", "coding", "source", "decode", "lpc", "rice", "driver", "floatskel", "sink", "utf8"], "extra": c07_extra,
+        "theorem_modules": ["FlacVerif.Theorems.C07", "FlacVerif.Theorems.C07Total", "FlacVerif.Theorems.C09Gen", "FlacVerif.Theorems.C01Gen", "FlacVerif.Theorems.C13Gen", "FlacVerif.Theorems.C03GenErr", "FlacVerif.Theorems.C07Gen", "FlacVerif.Theorems.C13GenProp"],
         "streams": {"quick": [("config", ["--cases", 150])], "thorough": [("config", ["--cases", 800, "--thorough"])], "search": [("config", ["--cases", 800, "--thorough"])]},
         "profiles": {"quick": ["release", "dev"], "thorough": ["release", "dev"]},
         "diff_prefix": ["c07."], "oracle_fields": ["o_c07"], "rule": CONFIG_RULE,
@@ -455,7 +455,7 @@ PROPS.update({
         "assumptions": ["stable (fakesimd) build; the simd-nightly path of weighted_delay_prod_sum_impl splits by heap alignment (read only, noted in DESIGN.md)"],
     },
     "C15": {
-        "theorem_modules": ["FlacVerif.Theorems.C15", "FlacVerif.Theorems.C02Hdr", "FlacVerif.Theorems.C15Gen", "FlacVerif.Theorems.C16Gen"], "uses_gen": ["constants", "tables", "headers", "writer", "verify", "decode", "parser"],
+        "theorem_modules": ["FlacVerif.Theorems.C15", "FlacVerif.Theorems.C02Hdr", "FlacVerif.Theorems.C15Gen", "FlacVerif.Theorems.C16Gen", "FlacVerif.Theorems.C16GenRel"], "uses_gen": ["constants", "tables", "headers", "writer", "verify", "decode", "parser"],
         "streams": {"quick": [("parser", ["--cases", 14, "--burst-stride", 64, "--random", 200]), ("stream", ["--cases", 150, "--max-samples", 5000]), ("comp", ["--cases", 100])],
                     "thorough": [("parser", ["--cases", 40, "--burst-stride", 16, "--random", 2000]), ("stream", ["--cases", 1333, "--max-samples", 24000]), ("comp", ["--cases", 3000])],
                     "search": [("stream", ["--cases", 1000, "--max-samples", 9000])]},
